@@ -1759,9 +1759,11 @@ impl<'a, 'b> InternalDelphiLogicalLineParser<'a, 'b> {
             to Keywords until a break case.
         */
         while let Some(&token_index) = self.get_current_logical_line().tokens.get(line_index) {
-            let prev_token_type = line_index
-                .checked_sub(1)
-                .and_then(|index| get_token_type_of_line_index(self, index));
+            // The previous token that is not a comment, e.g., `TFoo = class helper for {c} Platform`
+            let prev_token_type = (0..line_index)
+                .rev()
+                .filter_map(|index| get_token_type_of_line_index(self, index))
+                .find(|token_type| !matches!(token_type, TT::Comment(_)));
             /*
                 When traversing the line there are some cases where there is
                 guaranteed to be no more portability directives before a token.
